@@ -216,7 +216,8 @@ def check_clean_stop(case, res, out):
     # runs, are required to leave nothing behind.
     pathos = par_stage(case['desc']).get('backend', 't') == 'mp'
     for ep, (rec, ev) in enumerate(zip(res['epochs'], parrun.split_epochs(res['log']))):
-        stopped = any(e[2] == 'stop' for e in ev)
+        stopped = any(e[2] == 'stop' for e in ev) and \
+            not (pathos and any(e[2] == 'raise' for e in ev))
         if rec['alive_at_return'] and not pathos:
             out['violations'].append(viol(
                 'thread_alive_after_return', 'thread_alive_after_return:%s' % pn,
